@@ -91,4 +91,9 @@ TEXT = {
         "level_text": "Exploration: (1) hundreds of generated concurrent programs per run - 2-8 goroutines released by a barrier, each a drawn list of read calls on one cold segment (lazy FST loading, stored and doc-value visits, DocsMatchingTerms, persist, a merge using the segment as input) with drawn Gosched points - must return exactly what a twin segment returns sequentially, in a -race binary where any DATA RACE report with an ice frame is a violation; (2) generated nesting programs (reads issued from inside stored-field / doc-value visitor callbacks, depth <= 3, other 128-document blocks) must deliver the model's values. Schedules are sampled, not enumerated.",
         "level_note": "Not claimed: absence of races on interleavings that did not run; liveness. A schedule-dependent failure cannot be shrunk by rapid; the driver stores the generated program and the race report as the replay artefact.",
     },
+    "C10": {
+        "technique": "differential property testing (rapid) against a frozen reference copy of the pinned sources, both directions on the same bytes, plus a golden corpus",
+        "level_text": "Exploration: every generated batch/merge (small, 128-document-block and >1024-document families, several chunk modes) is written by the current code and by the frozen reference (harness/refice); the reference reader must observe in a current-written file exactly what the current reader observes (= the model), and the current reader must observe in a reference-written file exactly what the reference reader observes, also when such a file is fed to the current merger. A golden corpus of 11 reference-written files with stored reference observations is replayed on every run. Byte identity of the writers is recorded, not required.",
+        "level_note": "Relative to the frozen reference and the corpus; the reference's own known defects (dictionary counts after 1-hit, zero-survivor files, short-record look-ahead, location field of repeated terms) are excluded by construction and counted.",
+    },
 }
